@@ -111,6 +111,24 @@ Section Dom.
         intros Hw. induction i as [|x t IH]; intro Hi; [reflexivity|]. cbn [forallb] in Hi. apply andb_true_iff in Hi.
         destruct Hi as [Hx Ht]. cbn [all_contained cfg_fixed c_member_items]. rewrite (contains_congr x w Hx Hw), (IH Ht). reflexivity.
       Qed.
+      (* the one-to-one matching of the repaired ItemCollection.Equals (builder b58): the same member comparisons *)
+      Lemma find_unused_congr x w : ok x = true -> forallb ok w = true -> forall used,
+        find_unused r1 w used x = find_unused r2 w used x.
+      Proof.
+        intros Hx. induction w as [|m t IH]; intros Hw used; [reflexivity|]. cbn [forallb] in Hw.
+        apply andb_true_iff in Hw. destruct Hw as [Hm Ht].
+        destruct used as [|[|] ut]; cbn [find_unused]; [reflexivity| |].
+        - rewrite (IH Ht ut). reflexivity.
+        - rewrite (Hrec m x Hm Hx), (IH Ht ut). reflexivity.
+      Qed.
+      Lemma all_matched_congr w i : forallb ok w = true -> forallb ok i = true -> forall used,
+        all_matched r1 i w used = all_matched r2 i w used.
+      Proof.
+        intros Hw. induction i as [|x t IH]; intros Hi used; [reflexivity|]. cbn [forallb] in Hi.
+        apply andb_true_iff in Hi. destruct Hi as [Hx Ht]. cbn [all_matched].
+        rewrite (find_unused_congr x w Hx Hw used).
+        destruct (find_unused r2 w used x) as [[u'|]| | |]; cbn [obind]; try reflexivity. apply (IH Ht).
+      Qed.
       Lemma itemcoll_congr i w : forallb ok i = true -> ok w = true ->
         itemcoll_equals cfg_fixed r1 i w = itemcoll_equals cfg_fixed r2 i w.
       Proof.
@@ -119,7 +137,7 @@ Section Dom.
         match goal with |- (if ?c then _ else _) = _ => destruct c end; [reflexivity|].
         destruct (to_item_collection w) as [wl|] eqn:E; [|reflexivity].
         destruct (negb (Nat.eqb (length wl) (length i))); [reflexivity|].
-        apply all_contained_congr; [eapply to_ic_ok; eauto|exact Hi].
+        cbn [cfg_fixed c_match_once]. apply all_matched_congr; [eapply to_ic_ok; eauto|exact Hi].
       Qed.
 
       Lemma cmp_one_congr c ofs wfs : cmp_ok c = true -> fok ofs = true -> fok wfs = true ->
